@@ -80,9 +80,13 @@ ASSUMPTIONS = [
     "object is left out of the model comparison (reasons `noclaim:*` in the branch histogram, listed in `_verdict`): confidence applied "
     "to ground truths, attributes of a result's estimate not tested, confidence bound 0 and no attribute test for relaxed unknown "
     "estimates, target_labels == [], a key that is only a substring of the label name, ground-truth-less results under target uuids. "
-    "The Lean model and the regenerated decision table of `_is_target_object` follow the code also there (theorems "
-    "isTarget_table_check / isTarget_code_table_eq_model): a change of the code on those inputs breaks these theorems and is reported "
-    "without a failing input",
+    "The Lean model follows today's code also there. The regenerated decision table of `_is_target_object` is compared (theorems "
+    "isTarget_table_check / isTarget_code_table_eq_model) with the model skeleton under ONE of the eight readings of three of these "
+    "points (PEval.FilterTable.Reading: confidence applied to ground truths or not, target_labels == [] targets everything or "
+    "nothing, confidence bound 0 or mean for relaxed unknown estimates), exception classes not compared; the corollaries for the "
+    "code's table (table_iff_criteria ...) are stated for inputs whose atoms avoid the valuations on which the readings differ "
+    "(PEval.C10.InQuantifier). A change of the code on the other `noclaim:*` inputs (attribute test of relaxed estimates, name "
+    "substrings) still breaks the table theorem and is reported without a failing input",
     "manager level: `_filter_objects` is resolved with getattr, the per-case criteria are installed by assigning "
     "`evaluator_config.filtering_params` / `target_labels` and read back through the manager's public properties; when either is not "
     "possible the manager observation is dropped for the run (branch `unobservable:*`), never reported",
